@@ -1,8 +1,6 @@
 package storage
 
 import (
-	"fmt"
-
 	chartutil "helm.sh/helm/v4/pkg/chart/v2/util"
 	rspb "helm.sh/helm/v4/pkg/release/v1"
 )
@@ -33,4 +31,3 @@ func mkRel(name string, ver int, st rspb.Status) *rspb.Release {
 	return &rspb.Release{Name: name, Version: ver, Namespace: "default", Info: &rspb.Info{Status: st}}
 }
 
-func obs(format string, a ...interface{}) { vObserve(fmt.Sprintf(format, a...)) }
